@@ -83,7 +83,97 @@ fn check_pair<T: Ord + Clone + std::fmt::Debug>(
     Ok(())
 }
 
+/// Size ladder: operands described by (shape, length) instead of by their elements, lengths on a
+/// ladder 0..70, then 2^k - 1, 2^k, 2^k + 1 and 3 * 2^(k-1) up to 2^18: thresholds on the operand size
+/// are crossed one rung at a time. Elements are generated from the description (replayable).
+fn ladder_operands(shape: u64, len: usize) -> (Vec<i64>, Vec<i64>) {
+    let l = len as i64;
+    match shape {
+        // interleaved, every third value shared
+        0 => ((0..l).map(|i| 2 * i).collect(), (0..l).map(|i| if i % 3 == 0 { 2 * i } else { 2 * i + 1 }).collect()),
+        // a long operand and a tiny one sharing its largest values (unsorted input with duplicates)
+        1 => ((0..l).rev().chain(0..l.min(3)).collect(), vec![l - 1, l + 5, l - 1, (l - 11).max(0)]),
+        // equal operands
+        2 => ((0..l).map(|i| 7 * i - 100).collect(), (0..l).map(|i| 7 * i - 100).collect()),
+        // strict prefix
+        3 => ((0..l).collect(), (0..l / 2).collect()),
+        // nested in the middle, nothing shared
+        4 => ((0..l).map(|i| 10 * i).collect(), (l / 3..2 * l / 3).map(|i| 10 * i + 5).collect()),
+        // pseudo-random with many duplicates
+        _ => {
+            let mut r = Rng::new(0x1adde2, shape, len as u64);
+            let span = (l / 2).max(2);
+            ((0..l).map(|_| r.range(-span, span)).collect(), (0..l).map(|_| r.range(-span, span)).collect())
+        }
+    }
+}
+
+fn check_ladder(shape: u64, len: usize) -> Result<(), String> {
+    let (x, y) = ladder_operands(shape, len);
+    let sx: BTreeSet<i64> = x.iter().copied().collect();
+    let sy: BTreeSet<i64> = y.iter().copied().collect();
+    let ux: UniqueSortedVec<i64> = x.clone().into();
+    let uy: UniqueSortedVec<i64> = y.clone().into();
+    let strictly_increasing = |v: &[i64]| v.windows(2).all(|w| w[0] < w[1]);
+    let describe = |got: &[i64], exp: &[i64]| -> String {
+        let i = got.iter().zip(exp.iter()).position(|(a, b)| a != b).unwrap_or(got.len().min(exp.len()));
+        format!("{} elements instead of {}; first difference at index {i}: {:?} vs {:?}", got.len(), exp.len(), got.get(i.saturating_sub(1)..(i + 2).min(got.len())), exp.get(i.saturating_sub(1)..(i + 2).min(exp.len())))
+    };
+    let ex: Vec<i64> = sx.iter().copied().collect();
+    if ux.as_slice() != ex.as_slice() {
+        return Err(format!("From<Vec> of shape {shape}, {len} elements: {}", describe(ux.as_slice(), &ex)));
+    }
+    let eu: Vec<i64> = sx.union(&sy).copied().collect();
+    for (what, un) in [("union(x, y)", ux.clone().union(uy.clone())), ("union(y, x)", uy.clone().union(ux.clone()))] {
+        if !strictly_increasing(un.as_slice()) || un.as_slice() != eu.as_slice() {
+            return Err(format!("{what} of shape {shape} with operands of {} and {} distinct elements is not the sorted set union: {}", ex.len(), sy.len(), describe(un.as_slice(), &eu)));
+        }
+        for p in [-1i64, 0, 1, len as i64 / 2, len as i64 - 1, len as i64, 2 * len as i64 + 1] {
+            if un.contains(&p) != (sx.contains(&p) || sy.contains(&p)) {
+                return Err(format!("{what} of shape {shape}, length {len}: contains({p}) = {}", un.contains(&p)));
+            }
+            if un.find_first_following(&p) != eu.iter().find(|v| **v >= p) {
+                return Err(format!("{what} of shape {shape}, length {len}: find_first_following({p}) = {:?}", un.find_first_following(&p)));
+            }
+        }
+    }
+    Ok(())
+}
+
+fn ladder(args: &Args, rep: &mut Report) {
+    let mut lens: Vec<usize> = (0..=70).collect();
+    let top = if args.extra.iter().any(|e| e == "norandom") { 9 } else { 18 };
+    for k in 7..=top {
+        lens.extend([(1usize << k) - 1, 1 << k, (1 << k) + 1, 3 << (k - 1)]);
+    }
+    let mut idx = 0u64;
+    for len in lens {
+        for shape in 0..8u64 {
+            idx += 1;
+            if (idx - 1) % args.of.max(1) != args.worker {
+                continue;
+            }
+            rep.evaluations += 1;
+            rep.begin(&format!("size ladder: shape {shape}, length {len}"));
+            rep.count("ladder_pairs");
+            rep.max("ladder_max_operand_length", len as u64);
+            match guarded(|| check_ladder(shape, len)) {
+                Ok(Ok(())) => {}
+                Ok(Err(msg)) => rep.violation("set_semantics", msg, json!({"ladder_shape": shape, "ladder_len": len}), None),
+                Err(p) => rep.violation("panic", format!("panic on the size ladder (shape {shape}, length {len}): {p}"), json!({"ladder_shape": shape, "ladder_len": len}), None),
+            }
+            if rep.full() {
+                return;
+            }
+        }
+    }
+}
+
 pub fn run(args: &Args, rep: &mut Report) {
+    ladder(args, rep);
+    if rep.full() {
+        return;
+    }
     let max_len: usize = args
         .extra
         .iter()
@@ -167,6 +257,15 @@ pub fn run(args: &Args, rep: &mut Report) {
 }
 
 pub fn replay(case: &serde_json::Value, rep: &mut Report) {
+    if let (Some(shape), Some(len)) = (case["ladder_shape"].as_u64(), case["ladder_len"].as_u64()) {
+        rep.evaluations += 1;
+        match guarded(|| check_ladder(shape, len as usize)) {
+            Ok(Ok(())) => {}
+            Ok(Err(msg)) => rep.violation("set_semantics", msg, case.clone(), None),
+            Err(p) => rep.violation("panic", format!("panic on the size ladder (shape {shape}, length {len}): {p}"), case.clone(), None),
+        }
+        return;
+    }
     let get = |k: &str| -> Vec<i64> { case[k].as_array().map(|a| a.iter().filter_map(|v| v.as_i64()).collect()).unwrap_or_default() };
     let (x, y) = (get("x"), get("y"));
     let mut probes: Vec<i64> = x.iter().chain(y.iter()).flat_map(|v| [v - 1, *v, v + 1]).collect();
